@@ -14,7 +14,7 @@ META = dict(
                 'events with symbolic status (z3 enum) and symbolic creation stamps (z3 reals) and a symbolic limit N; '
                 'size and eviction-order clauses are SMT obligations per region (one inductive step from an arbitrary '
                 'history). Scenarios: real buses with N in {1,2,3} and a symbolic burst size b of nested dispatches.',
-    assumptions=['stub history entries expose exactly the attributes cleanup/dispatch read (event_status, event_created_at.timestamp())',
+    assumptions=['stub history entries expose exactly the attributes cleanup/dispatch read (event_status, event_created_at.timestamp(), event_are_all_children_complete() as a symbolic flag)',
                  'the lift from the one-step kernel to all histories is an induction argued in DESIGN.md, not machine-checked'],
     outside=['histories larger than K entries in the kernel', 'N > K'],
 )
@@ -31,16 +31,22 @@ class _TS:
 
 
 class StubEv:
-    def __init__(self, label, status, t):
+    def __init__(self, label, status, t, children_done=True):
         self.event_id = label
         self.event_status = status
         self.event_created_at = _TS(t)
         self.event_started_at = None
         self.event_completed_at = None
+        self.children_done = children_done
+
+    def event_are_all_children_complete(self, _visited=None):
+        return self.children_done
 
 
-def _rank(st):
-    return zite(st == 'completed', 0, zite(st == 'started', 1, 2))
+def _rank(ev):
+    # an event whose handlers have all returned ('completed') but whose children are still in flight is itself still in flight
+    st = ev.event_status
+    return zite(zand(st == 'completed', ev.children_done), 0, zite(zor(st == 'started', st == 'completed'), 1, 2))
 
 
 def _mk_history(ctx, k):
@@ -48,7 +54,7 @@ def _mk_history(ctx, k):
     for i in range(k):
         st = ctx.enum(f's{i}', STATUSES)
         t = ctx.real(f't{i}', 0, 10)
-        evs[f'e{i}'] = StubEv(f'e{i}', st, t)
+        evs[f'e{i}'] = StubEv(f'e{i}', st, t, ctx.flag(f'c{i}'))
     return evs
 
 
@@ -60,7 +66,7 @@ def _order_clause(ctx, objs, kept, clause):
             if kk not in objs:
                 continue
             a, b = objs[r], objs[kk]
-            ra, rb = _rank(a.event_status), _rank(b.event_status)
+            ra, rb = _rank(a), _rank(b)
             # violation: removed one is more in-flight than a kept one, or same class and strictly younger
             bad.append(zor(ra > rb, zand(ra == rb, a.event_created_at.t > b.event_created_at.t)))
     ctx.check(clause, znot(zor(*bad)) if bad else True)
